@@ -348,6 +348,12 @@ def run_sync_scenario(case):
                                     why = "stripe-holds-replaced(copy-detected)-block"
                                 elif torn_pos is not None and a.nlev == 1 and torn_pos in poss:
                                     why = "torn-parity-block-with-single-parity"
+                            if why == "unexplained" and rec and bad0:
+                                # the saved content already declares new blocks of these stripes synced while their parity
+                                # writes were still queued when the process died (same mechanism as the resume finding)
+                                sub_bad = {k_: v_ for k_, v_ in bad0.items() if k_[0] in poss}
+                                if sub_bad and diagnose_parity(a, ev2, sub_bad, "parity-mismatch") == "parity-mismatch/content-saved-before-queued-parity-write":
+                                    why = "content-saved-before-queued-parity-write"
                             reasons.setdefault(why, []).append(p_)
                             if why == "unexplained" and os.environ.get("VERIF_DEBUG"):
                                 print("DEBUG unexplained", p_, "torn_pos", torn_pos, "blocks", rec[0].blocks if rec else None, "mode", mode, ptype)
@@ -422,17 +428,24 @@ def run_fix_scenario(case):
     variant = "asan" if idx % 5 == 4 else "plain"
     res = dict(key="fix-scn-%d" % idx, violations=[], counters={}, nontrivial=False)
     cfg = scen.gen_config(rng, force=dict(nlev=rng.randint(1, 3), nd=rng.randint(2, 4), ncontent=2, content_on_data=False))
-    a, fs, state0, hist, cfg = build_synced_array(rng, "c07f", cfg, variant, rounds=0, want_migration=False)
+    # one scenario in three: 'fix -m' (only what is missing) on an array whose files are fragmented over the parity by earlier
+    # delete/add rounds, stopped gracefully: several files of one disk can be begun and unfinished at the same stripe
+    only_missing = idx % 3 == 2
+    a, fs, state0, hist, cfg = build_synced_array(rng, "c07f", cfg, variant, rounds=(rng.randint(2, 3) if only_missing else 0), want_migration=False)
+    fargs = ["-m"] if only_missing else []
     tpl = None
+    tpl_twin = None
     try:
         # damage: lose a disk, or delete/flip some files, plus links and dirs
         d = rng.choice(a.disks)
         how = rng.choice(["wipe", "wipe", "delete", "flip", "rmlinks"])
+        if only_missing:
+            how = rng.choice(["wipe", "wipe", "delete"])
         scen.damage_data_disk(a, fs, rng, d, how, state0)
         if rng.random() < 0.4:
             scen.damage_parity_file(rng.choice(a.all_parity_paths()), rng, rng.choice(["delete", "flips", "zero"]))
         prefix_fix = None
-        if idx % 2 == 1 and len(a.disks) > a.nlev:
+        if idx % 2 == 1 and len(a.disks) > a.nlev and not only_missing:
             # some stripes are damaged beyond the redundancy, and a first fix has already run: it left 'file.unrecoverable'
             # behind; the fix that gets interrupted is the one run after that
             c0 = a.load_content()
@@ -460,11 +473,16 @@ def run_fix_scenario(case):
             res["counters"]["scenarios_after_a_first_fix"] = 1
             res["counters"]["unrecoverable_leftovers"] = sum(1 for k_ in tree_state(a) if k_[1].endswith(b".unrecoverable"))
         tpl = Template(a)
-        r = a.cmd("fix", variant=variant, shim={})
+        r = a.cmd("fix", *fargs, variant=variant, shim={})
         evs = shimlog.parse(r.events)
         twin_rc = r.rc
         twin_tree = tree_state(a)
         twin_parity = a.parity_bytes()
+        # what a SECOND uninterrupted run makes of it (computed only when needed): an uninterrupted fix is not always at its
+        # fix-point - a block it could not rebuild can become fetchable once another file with the same data has been
+        # restored - and "interrupted, then run again" is two runs as well
+        tpl_twin = Template(a)
+        twin2 = {}
         muts = [e for e in evs if e.cls in ("data", "parity", "content") and shimlog.is_mut(e)]
         cmuts = [e for e in muts if e.cls == "content" and not e.path.endswith(b".lock")]
         if cmuts:
@@ -477,21 +495,26 @@ def run_fix_scenario(case):
         # process death in three ways at every call, and a graceful stop (SIGINT raised inside the call: fix finishes the
         # stripe, cleans up what it created but did not finish, and exits)
         points = [(k, m) for k in range(1, K + 1) for m in list(MODES) + ["sigint"]]
+        if only_missing:
+            # after a process death a partial file exists and is, by definition, no longer "missing": only the graceful stop
+            # (which removes what it created and did not finish) is judged with -m
+            points = [(k, "sigint") for k in range(1, K + 1)]
+            res["counters"]["fix_m_scenarios"] = 1
         if tier == "quick" and len(points) > 60:
             points = rng.sample(points, 60)
         fired = 0
         for (k, mode) in points:
             tpl.restore()
-            r = a.cmd("fix", variant=variant, shim={"plan": "tracked:mut:n=%d:%s" % (k, mode)})
+            r = a.cmd("fix", *fargs, variant=variant, shim={"plan": "tracked:mut:n=%d:%s" % (k, mode)})
             if not shimlog.injected(shimlog.parse(r.events)):
                 continue
             fired += 1
             hit = muts[k - 1]
             replay = {"case": list(case), "cfg": cfg, "damage": how, "point": [k, mode], "of": K, "call": repr(hit)}
-            label = "fix %s at call %d/%d (%s, %s %s)%s" % ("stopped by SIGINT" if mode == "sigint" else "killed", k, K, mode, hit.op, hit.cls,
+            label = "fix %s%s at call %d/%d (%s, %s %s)%s" % (" ".join(fargs) + " " if fargs else "", "stopped by SIGINT" if mode == "sigint" else "killed", k, K, mode, hit.op, hit.cls,
                                                             " [after a first fix, rc %s]" % prefix_fix if prefix_fix is not None else "")
             res["counters"]["fix_points_" + ("sigint" if mode == "sigint" else "kill")] = res["counters"].get("fix_points_" + ("sigint" if mode == "sigint" else "kill"), 0) + 1
-            r2 = a.cmd("fix", variant=variant)
+            r2 = a.cmd("fix", *fargs, variant=variant)
             for s in r2.san:
                 res["violations"].append(("sanitizer:" + A.san_key(s), "%s: %s" % (label, s[:2500]), replay))
             if r2.rc != twin_rc:
@@ -499,8 +522,26 @@ def run_fix_scenario(case):
                 continue
             now = tree_state(a)
             diffs = []
-            for key in sorted(set(now) | set(twin_tree)):
-                x, y = twin_tree.get(key), now.get(key)
+            ref_tree = twin_tree
+            if any((twin_tree.get(k_) is None) != (now.get(k_) is None) or (twin_tree.get(k_) is not None and now.get(k_) is not None and
+                   (twin_tree[k_][0] != now[k_][0] or twin_tree[k_][1] != now[k_][1] or twin_tree[k_][4] != now[k_][4]))
+                   for k_ in set(now) | set(twin_tree) if not (now.get(k_) is not None and twin_tree.get(k_) is None and k_[1].endswith(b".unrecoverable"))):
+                if not twin2:
+                    img_now = Template(a)
+                    try:
+                        tpl_twin.restore()
+                        rt2 = a.cmd("fix", *fargs, variant=variant)
+                        twin2["rc"] = rt2.rc
+                        twin2["tree"] = tree_state(a)
+                        twin2["parity"] = a.parity_bytes()
+                    finally:
+                        img_now.restore()
+                        img_now.cleanup()
+                    res["counters"]["twin_fix_not_at_fixpoint"] = res["counters"].get("twin_fix_not_at_fixpoint", 0) + (1 if twin2["tree"] != twin_tree else 0)
+                if twin2["tree"] != twin_tree:
+                    ref_tree = twin2["tree"]
+            for key in sorted(set(now) | set(ref_tree)):
+                x, y = ref_tree.get(key), now.get(key)
                 if x is None or y is None:
                     # leftovers of the interrupted run are not part of "file contents, links and directories"
                     if y is not None and key[1].endswith(b".unrecoverable"):
@@ -529,8 +570,30 @@ def run_fix_scenario(case):
                     print("  events on it in killed run:", [(e.op, e.ret, e.off, e.len) for e in shimlog.parse(r.events) if e.kind == "E" and e.path == pth])
                     print("  state0 entry:", {k2: (v2[0], len(v2[1]) if v2[0] == "file" else v2[1:], v2[2] if v2[0] == "file" else None) for k2, v2 in state0[key[0]].items() if k2 == key[1] or (v2[0] == "hardlink" and (v2[1] == key[1] or k2 == key[1]))})
             if diffs:
-                res["violations"].append(("second-fix-result-differs:" + diffs[0][1].split("/")[0], "%s: %s" % (label, evidence.jsonable(diffs[:4])), replay))
-            elif a.parity_bytes() != twin_parity and twin_rc == 0:
+                why = ""
+                if mode == "sigint":
+                    # diagnosis of one recorded mechanism: the stopped run went on to re-create the hard links, linked a name to
+                    # a file it had begun, then removed that file as created-but-unfinished - the link name keeps the partial
+                    # inode, exists, and is therefore outside the selection of the second 'fix -m'
+                    ev_stop = [e for e in shimlog.parse(r.events) if e.kind == "E" and e.op == "link" and e.ret == 0]
+
+                    def stale_alias(key_):
+                        # the name belongs to a recorded hard-link group (whichever name the tool took for the file), and the
+                        # stopped run made a successful link() on it
+                        grp = set()
+                        for s_, e0 in state0[key_[0]].items():
+                            if e0[0] == "hardlink":
+                                tgt = e0[1][0] if isinstance(e0[1], tuple) else e0[1]
+                                grp.update((s_, tgt))
+                        y_ = now.get(key_)
+                        if key_[1] not in grp or y_ is None or y_[0] != "file":
+                            return False
+                        pth_ = os.path.join(os.fsencode(a.ddir(key_[0])), key_[1])
+                        return any(e.path == pth_ or e.path2 == pth_ for e in ev_stop)
+                    if all(stale_alias(k_) for k_, _w in diffs):
+                        why = "hard-link-name-kept-on-the-partial-file-that-the-stopped-fix-removed"
+                res["violations"].append(("second-fix-result-differs:" + (why or diffs[0][1].split("/")[0]), "%s: %s" % (label, evidence.jsonable(diffs[:4])), replay))
+            elif a.parity_bytes() != twin_parity and twin_rc == 0 and ref_tree is twin_tree:
                 res["violations"].append(("second-fix-parity-differs", label, replay))
             if _unmatched(res) >= 4:
                 break
@@ -542,6 +605,10 @@ def run_fix_scenario(case):
     finally:
         if tpl:
             tpl.cleanup()
+        try:
+            tpl_twin.cleanup()
+        except Exception:
+            pass
         a.cleanup()
 
 
